@@ -269,6 +269,12 @@ func (mv *MessageView) BodyReader(opts ...Option) (io.ReadCloser, error) {
 		return ioutil.NopCloser(r), nil
 	}
 
+	if mv.traileroffset == mv.bodyoffset {
+		// No body was captured (it was skipped, or the message has none, e.g. a
+		// 304 that still carries Content-Encoding): there is nothing to decode.
+		return ioutil.NopCloser(r), nil
+	}
+
 	if mv.chunked {
 		r = httputil.NewChunkedReader(r)
 	}
